@@ -362,6 +362,9 @@ impl G {
 
     /// one non-failing, output-free statement (possibly several lines)
     fn filler(&mut self, depth: usize) -> Vec<String> {
+        if self.rng.chance(1, 6) {
+            return self.token_filler(depth);
+        }
         let k = self.rng.below(if depth >= 2 { 22 } else { 30 });
         let v = self.v();
         let (a, b) = (self.int(), self.int());
@@ -552,6 +555,44 @@ impl G {
                 r.push(format!("{s}{v} = {h}({a})"));
                 r
             }
+        }
+    }
+
+    /// a statement made of TOKENS that span lines (the lexer's line counter has to follow every kind
+    /// of line break inside a token): strings with backslash line continuations (1-3, also followed
+    /// by blank / whitespace-only lines), interpolations whose expression or format options contain
+    /// line breaks, raw strings and comments spanning lines with a backslash before the line break.
+    /// With CRLF files every line break below is a CR LF.
+    fn token_filler(&mut self, depth: usize) -> Vec<String> {
+        let v = self.v();
+        let (a, b) = (self.int(), self.int());
+        let s = M_STMT;
+        let q = *self.rng.pick(&["'", "\""]);
+        let k = self.rng.below(if depth == 0 { 12 } else { 11 });
+        self.stat(format!("token_filler={k}"));
+        match k {
+            0 => {
+                let n = 1 + self.rng.below(3);
+                let mut r = vec![format!("{s}{v} = {q}abc {a} \\")];
+                for i in 1..n {
+                    r.push(format!("  part {i} \\"));
+                }
+                r.push(format!("  end{q}"));
+                self.stat(format!("string_continuations={n}"));
+                r
+            }
+            1 => vec![format!("{s}{v} = {q}x {a} \\"), String::new(), format!("  y{q}")],
+            2 => vec![format!("{s}{v} = {q}x \\"), "   ".into(), "\t\\".into(), format!("  y {b}{q}")],
+            3 => vec![format!("{s}{v} = {q}x {{{a}}} \\"), format!("  y {{{b} + 1}} \\"), format!("  z{q}")],
+            4 => vec![format!("{s}{v} = {q}v {{({a} +"), format!("    {b})}} w{q}")],
+            5 => vec![format!("{s}{v} = {q}v {{id2("), format!("  {a},"), format!("  {b}"), format!(")}} w \\"), format!("  end{q}")],
+            6 => vec![format!("{s}{v} = r{q}raw {a} \\"), "  still {raw} \\".into(), format!("{q}")],
+            7 => vec![format!("{s}{v} = r#{q}raw"), format!("  {q}quoted{q} \\"), format!("{q}#")],
+            8 => vec![format!("{s}#- multi \\"), format!("  line {a} ' \\"), "-#".into()],
+            9 => vec![format!("{s}# comment {a} \\"), format!("{s}{v} = {b}")],
+            10 => vec![format!("{s}{v} = id2("), format!("  {q}a \\"), format!("  b{q},"), format!("  {a}"), ")".into()],
+            // (format options may not start with the indentation of a nested line: top level only)
+            _ => vec![format!("{s}{v} = {q}v {{{a}:"), format!(">6}} w{q}")],
         }
     }
 
@@ -1182,7 +1223,7 @@ fn gen_planted(rng: &mut Rng, allow_try: bool) -> Planted {
             raw.extend(g.fillers(0, 2, 0));
         }
     }
-    let eol = if g.rng.chance(1, 8) { "\r\n" } else { "\n" };
+    let eol = if g.rng.chance(1, 5) { "\r\n" } else { "\n" };
     let trailing = g.rng.chance(3, 4);
     let mut blank_tail = 0;
     if trailing && g.rng.chance(1, 4) {
@@ -1811,6 +1852,18 @@ impl Ctx {
                 self.rep.bump(&format!("parse_error={}", msg.chars().take(40).collect::<String>()));
                 if let Err(why) = span_inside(src, &sp) {
                     fail = Some(("C12:compile-error-outside-text".into(), det(&why, json!({"span": span_s(&sp), "error": msg}))));
+                } else if let Some(upto) = kind.rsplit_once("@upto").and_then(|x| x.1.parse::<usize>().ok()) {
+                    // an error about a character inside a token that spans lines (a bad escape in a
+                    // multi-line string literal): the offending token starts on `expect_line`, the
+                    // offending character is on line `upto`; the reported span has to start on one of
+                    // the token's lines up to the character's and has to reach the character's line
+                    let (a, b) = (sp.start.line as usize, sp.end.line as usize);
+                    if a < expect_line || a > upto || b < upto {
+                        fail = Some((
+                            "C12:compile-error-line".into(),
+                            det("the reported span does not start inside the offending token at or before the bad character's line, or does not reach that line", json!({"span": span_s(&sp), "error": msg, "token_starts_on_line": expect_line, "bad_character_on_line": upto})),
+                        ));
+                    }
                 } else if sp.start.line as usize != expect_line && self.attribute_compile_error(src, &sp, &msg, expect_line) {
                     return None;
                 } else if sp.start.line as usize != expect_line {
@@ -1879,7 +1932,7 @@ impl Ctx {
                     self.rep.bump(st);
                 }
             } else {
-                self.rep.bump(&format!("mutation={kind}"));
+                self.rep.bump(&format!("mutation={}", kind.split("@upto").next().unwrap()));
             }
             self.broken_case(&src, line, &kind, false);
         }
@@ -2004,6 +2057,31 @@ fn mutate(rng: &mut Rng, p: &Planted) -> Option<(String, usize, String)> {
         kind.push('\t');
         kind.push_str(&b.stats.join(" "));
         return Some((join(&lines, p.trailing), at + b.bad_rel, kind));
+    }
+    if rng.chance(1, 25) {
+        // a bad escape inside a string literal that spans lines (after preceding lines, a
+        // continuation or an interpolation segment)
+        let (at, ind) = *rng.pick(&p.flat_stmts);
+        let pad = " ".repeat(ind);
+        let bad = *rng.pick(&["\\q", "\\xZZ", "\\u{zz}", "\\x9f"]);
+        let before = rng.below(3);
+        let form = rng.below(3);
+        let mut lines = p.lines.clone();
+        let mut sn: Vec<String> = vec![match form {
+            0 => format!("{pad}q{at} = 'abc"),
+            1 => format!("{pad}q{at} = 'abc \\"),
+            _ => format!("{pad}q{at} = 'abc {{1 + 1}}"),
+        }];
+        for i in 0..before {
+            sn.push(format!("{pad}  def {i}"));
+        }
+        sn.push(format!("{pad}  gh {bad} i'"));
+        let n = sn.len();
+        for (i, l) in sn.into_iter().enumerate() {
+            lines.insert(at + i, l);
+        }
+        // (after an interpolation the literal continues as a token of its own that starts on the same line)
+        return Some((join(&lines, p.trailing), at, format!("bad-escape-in-multi-line-string:{}@upto{}", ["plain", "continuation", "after-interpolation"][form], at + n - 1)));
     }
     if rng.chance(1, 6) {
         // an error of the bytecode compiler / of the parser's arm bookkeeping whose offending
@@ -2252,7 +2330,7 @@ fn gen_debug(rng: &mut Rng) -> (String, Vec<usize>, Vec<String>) {
         }
     }
     raw.extend(g.fillers(0, 2, 0));
-    let eol = if g.rng.chance(1, 8) { "\r\n" } else { "\n" };
+    let eol = if g.rng.chance(1, 5) { "\r\n" } else { "\n" };
     let f = flatten(&raw, eol, g.rng.chance(3, 4));
     let line_of = |id: usize| f.debugs.iter().find(|(i, _)| *i == id).map(|(_, l)| *l).unwrap();
     let expect: Vec<usize> = order.iter().map(|id| line_of(*id)).collect();
@@ -2699,7 +2777,7 @@ fn main() {
     let args = Args::parse();
     let mut rep = Report::new("C12", &args);
     rep.max_samples = 12;
-    rep.rule = "cases: (a) random DebugInfo push sequences with all lookups 0..max+2 [non-trivial: >= 3 pushes]; (b) format_source_excerpt on random texts x random spans incl. out-of-guard ones [non-trivial: >= 2 lines or outside the guard]; (c) generated programs with a single-line fault planted at a known line inside 0-4 nested calls (call line = line of the callee token; call expressions may span lines) after random preceding constructs [non-trivial: >= 1 call level or >= 8 lines]; levels of the call chain may run inside callbacks of core-library functions (eager fold/any/all/find/position; lazy each/keep with their consumer), predicted by Trace.predictSegs; (d) one-token syntactic breaks of such programs with an unambiguous first bad token, and end-of-input cuts with at most one trailing line break (expected line = last line with text); (e) programs with single- and multi-line debug expressions; (f) a fault inside a function of an imported module (two chunks with their own texts and paths), called through 1-3 call sites in module and main script. The language guide does not say which line a failing multi-line expression reports, so planted faults are single-line expressions and for multi-line call expressions only the start line (callee token) is fixed, the reported span must stay inside the call expression. (g) planted-fault kinds added for seeded C12-mut1..3: a failing node at every position of a (mostly multi-line) chain `root` / `.id` / `.\"str\"` with `[i]`, `(call)` and `?` suffixes, with and without `?` after each node, also as assignment target (expected line = the line of the access the node is attached to), call sites that are nodes of multi-line chains, failing operations on registers only (locals / parameters) so that the fault is the first instruction of its statement, functions that are generators whose key statement follows 0-3 `yield`s and whose call site is a consumer (for loop, next(), to_tuple/to_list/count/consume/last, lazy adaptors, unpacking, iterator.next, match) predicted as one more interpreter entry by Trace.predictSegs, the fault itself inside a core-library callback (first instruction of the callback); (h) K1 on real chunks: for generated chains the spans of the Access/AccessString/Index/Call/JumpIfNull instructions in the compiled chunk's source map vs SrcMap.compile on the chain's nesting structure and vs the line of each node [non-trivial: >= 3 nodes]; (i) breaks inside multi-line bracketed constructs (call args, chained calls, list, tuple, map, parameter list, nested, index on one line): element after a missing comma, `then`/`else`, `=`, mismatched closer, on a line of their own or after the previous element, after 0-3 well-formed elements (expected line = the bad token's line; for `=` directly after a literal on the previous line the assignment's target is the offending token); (j) debug statements directly after a `yield` in generators consumed completely, debug of a local/parameter (no instruction before the debug instruction). (k) second wave (observations + seeded C12-mut4..6): every planted / debug / chain program is run under the default CompilerSettings and under one other combination of the flags that change code generation (export_top_level_ids, enable_type_checks; faults that are type checks keep them enabled) with type hints in every position (parameters, return type, let, for, match arm, catch) among the fillers and as function-literal arguments of chain calls; piped calls one per line as call sites; every ErrorKind of the bytecode compiler that source text can raise, with the offending construct on a later line than its statement's start (table checked against the enum in compiler.rs), and the parser's else-not-in-last-arm errors; several bad tokens on different lines (first one expected): repeated `key as name` rebinds in a map on the right-hand side, repeated stray closers / orphan keywords, a second bad token in a bracketed construct; callbacks of every lazy adaptor with an error frame (each, keep, take-while, intersperse-with; table checked against adaptors.rs) consumed directly and through koto.copy / koto.deep_copy / cycle, generators consumed through copies / cycle / flatten. distinct = distinct request/program texts".into();
+    rep.rule = "cases: (a) random DebugInfo push sequences with all lookups 0..max+2 [non-trivial: >= 3 pushes]; (b) format_source_excerpt on random texts x random spans incl. out-of-guard ones [non-trivial: >= 2 lines or outside the guard]; (c) generated programs with a single-line fault planted at a known line inside 0-4 nested calls (call line = line of the callee token; call expressions may span lines) after random preceding constructs [non-trivial: >= 1 call level or >= 8 lines]; levels of the call chain may run inside callbacks of core-library functions (eager fold/any/all/find/position; lazy each/keep with their consumer), predicted by Trace.predictSegs; (d) one-token syntactic breaks of such programs with an unambiguous first bad token, and end-of-input cuts with at most one trailing line break (expected line = last line with text); (e) programs with single- and multi-line debug expressions; (f) a fault inside a function of an imported module (two chunks with their own texts and paths), called through 1-3 call sites in module and main script. The language guide does not say which line a failing multi-line expression reports, so planted faults are single-line expressions and for multi-line call expressions only the start line (callee token) is fixed, the reported span must stay inside the call expression. (g) planted-fault kinds added for seeded C12-mut1..3: a failing node at every position of a (mostly multi-line) chain `root` / `.id` / `.\"str\"` with `[i]`, `(call)` and `?` suffixes, with and without `?` after each node, also as assignment target (expected line = the line of the access the node is attached to), call sites that are nodes of multi-line chains, failing operations on registers only (locals / parameters) so that the fault is the first instruction of its statement, functions that are generators whose key statement follows 0-3 `yield`s and whose call site is a consumer (for loop, next(), to_tuple/to_list/count/consume/last, lazy adaptors, unpacking, iterator.next, match) predicted as one more interpreter entry by Trace.predictSegs, the fault itself inside a core-library callback (first instruction of the callback); (h) K1 on real chunks: for generated chains the spans of the Access/AccessString/Index/Call/JumpIfNull instructions in the compiled chunk's source map vs SrcMap.compile on the chain's nesting structure and vs the line of each node [non-trivial: >= 3 nodes]; (i) breaks inside multi-line bracketed constructs (call args, chained calls, list, tuple, map, parameter list, nested, index on one line): element after a missing comma, `then`/`else`, `=`, mismatched closer, on a line of their own or after the previous element, after 0-3 well-formed elements (expected line = the bad token's line; for `=` directly after a literal on the previous line the assignment's target is the offending token); (j) debug statements directly after a `yield` in generators consumed completely, debug of a local/parameter (no instruction before the debug instruction). (k) second wave (observations + seeded C12-mut4..6): every planted / debug / chain program is run under the default CompilerSettings and under one other combination of the flags that change code generation (export_top_level_ids, enable_type_checks; faults that are type checks keep them enabled) with type hints in every position (parameters, return type, let, for, match arm, catch) among the fillers and as function-literal arguments of chain calls; piped calls one per line as call sites; every ErrorKind of the bytecode compiler that source text can raise, with the offending construct on a later line than its statement's start (table checked against the enum in compiler.rs), and the parser's else-not-in-last-arm errors; several bad tokens on different lines (first one expected): repeated `key as name` rebinds in a map on the right-hand side, repeated stray closers / orphan keywords, a second bad token in a bracketed construct; callbacks of every lazy adaptor with an error frame (each, keep, take-while, intersperse-with; table checked against adaptors.rs) consumed directly and through koto.copy / koto.deep_copy / cycle, generators consumed through copies / cycle / flatten. (l) third wave (seeded C12-mut7): fillers made of tokens that span lines before every fault / break / debug statement — strings with 1-3 backslash line continuations (also followed by blank, whitespace-only and tab lines, with interpolations, inside call arguments), interpolations with line breaks in the expression and (top level) in the format options, raw strings and comments with a backslash before the line break — under LF and CRLF (1 file in 5); a bad escape inside a string literal that spans lines (the span has to start in the literal token at or before the escape's line and reach that line). distinct = distinct request/program texts".into();
     let drv = Driver::spawn(&args.driver);
     let open: Vec<String> = rep.known_open().iter().filter_map(|e| e["id"].as_str().map(|s| s.to_string())).collect();
     let mut cx = Ctx { rep, drv, k_fail: 0, d_fail: 0, known_hits: Default::default(), open, verbose: args.replay.is_some(), mod_counter: 0, attribute: true };
